@@ -34,6 +34,7 @@ def check(run):
                     'and vrank (Spearman)')
     for cfg in configs(run):
         F = run.facts(cfg)
+        if cfg == 'base': __import__('common').pins(run, F, 'agg_delegates')
         # helpers this property stands on (rule sets owned by other properties, see common.deps)
         from common import deps as _deps
         _deps(run, F, 'isnone', 'agg_gates', 'casts')
